@@ -120,10 +120,10 @@ class SymbolicSource:
         return L.simplify_bytes(L.SBytes(ch))
 
 
-def mk_engine():
+def mk_engine(use_rank=False):
     import eth_hash.auto
     import eth_utils
-    e = L.Engine()
+    e = L.Engine(use_rank=use_rank)
     e.stubs[eth_hash.auto.keccak] = lambda ip, x: e.keccak(x)
     e.stubs[eth_utils.keccak] = lambda ip, x=None, **kw: e.keccak(x)
 
@@ -211,7 +211,7 @@ def run_obligation(ob, timeout_s=600):
                            counterexample={"values": _jsonable(rec.values(builder, params, pat)), "path_kind": "native-boundary", "detail": db_})
                 out["wall_s"] = round(time.time() - t0, 2)
                 return out
-        e = mk_engine()
+        e = mk_engine(bool(ob.get("rank")))
         e.solver.set("timeout", int(ob.get("query_timeout_ms", 120000)))
         args = builder(SymbolicSource(e), **params)
         pre = list(e.solver.assertions())          # input constraints + axioms so far
